@@ -194,6 +194,16 @@ def disc_obligations(pid, d, mir_text, t_mir, info, add, violations, inconclusiv
                     violations.append({"property": pid, "obligation": o["obligation"], "static": True, "witness": {"checker": name}})
             elif o["result"] != "unsat":
                 inconclusive.append(o["obligation"] + ": " + o["result"])
+    if pid == "C02":
+        ares, ainfo = discloop.assert_obligations(mir_text, lib_rs)
+        info["assert_properties"] = ainfo
+        info["functions_encoded"] += ainfo["functions"]
+        for o in ares:
+            add(o["obligation"], o["result"])
+            if o["result"] == "sat":
+                violations.append({"property": pid, "obligation": o["obligation"], "static": True, "witness": {"function": "assert_properties"}})
+            elif o["result"] != "unsat":
+                inconclusive.append(o["obligation"] + ": " + o["result"])
     info["z3_feasibility_queries"] = q
 
 
